@@ -196,6 +196,8 @@ def run(ctx):
     if n_sites < 1:
         raise FactError('skoolkit/snactl.py: no computed-address marker site found')
     tiling_rule(ctx, repo)
+    from sa.rules import C14pipe
+    C14pipe.run(ctx, repo)
     from sa.rules import memo
     memo.run_for(ctx, repo, 'C14')
     return report.finish(ctx, EXPLANATION)
